@@ -4,7 +4,9 @@ use std::collections::{BTreeMap, BTreeSet};
 use std::sync::Mutex;
 use std::time::Instant;
 
-pub const VERIF_ROOT: &str = "/verif";
+/// Root for evidence/, replays/, known_findings.json: $VERIF_ROOT (set by ./check to its own
+/// directory) or /verif.
+pub fn verif_root() -> String { std::env::var("VERIF_ROOT").unwrap_or_else(|_| "/verif".to_string()) }
 
 #[derive(Clone, Debug)]
 pub struct Violation {
@@ -54,7 +56,7 @@ pub struct FindingsFile {
 }
 
 pub fn load_findings() -> FindingsFile {
-    let p = format!("{}/known_findings.json", VERIF_ROOT);
+    let p = format!("{}/known_findings.json", verif_root());
     match std::fs::read_to_string(&p) {
         Ok(s) => serde_json::from_str(&s).unwrap_or_default(),
         Err(_) => FindingsFile::default(),
@@ -64,7 +66,7 @@ pub fn load_findings() -> FindingsFile {
 impl Report {
     pub fn new(id: &str, tier: &str, seed: u64) -> Self {
         // stale witnesses of earlier runs of the same (tier, seed) would be confusing
-        if let Ok(rd) = std::fs::read_dir(format!("{}/replays/{}", VERIF_ROOT, id)) {
+        if let Ok(rd) = std::fs::read_dir(format!("{}/replays/{}", verif_root(), id)) {
             let prefix = format!("{}-{}-", tier, seed);
             for e in rd.flatten() { if e.file_name().to_string_lossy().starts_with(&prefix) { std::fs::remove_file(e.path()).ok(); } }
         }
@@ -118,10 +120,10 @@ impl Report {
             println!("KNOWN-FINDING: property={} {} — {}", self.id, sig, desc);
         }
         let mut exit = 0;
-        std::fs::create_dir_all(format!("{}/replays/{}", VERIF_ROOT, self.id)).ok();
+        std::fs::create_dir_all(format!("{}/replays/{}", verif_root(), self.id)).ok();
         let mut vio_json = vec![];
         for (n, v) in unlisted.iter().enumerate() {
-            let path = format!("{}/replays/{}/{}-{}-{}.json", VERIF_ROOT, self.id, self.tier, self.seed, n);
+            let path = format!("{}/replays/{}/{}-{}-{}.json", verif_root(), self.id, self.tier, self.seed, n);
             let body = json!({"property": self.id, "signature": v.signature, "what": v.what, "seed": self.seed, "tier": self.tier, "witness": v.witness});
             std::fs::write(&path, serde_json::to_string_pretty(&body).unwrap()).ok();
             println!("VIOLATION property={} replay={}", self.id, path);
@@ -154,8 +156,8 @@ impl Report {
             "wall_s": self.start.elapsed().as_secs_f64(),
             "violations": unlisted.len(),
         });
-        std::fs::create_dir_all(format!("{}/evidence", VERIF_ROOT)).ok();
-        let path = format!("{}/evidence/{}.json", VERIF_ROOT, self.id);
+        std::fs::create_dir_all(format!("{}/evidence", verif_root())).ok();
+        let path = format!("{}/evidence/{}.json", verif_root(), self.id);
         std::fs::write(&path, serde_json::to_string_pretty(&ev).unwrap()).expect("write evidence");
         if i.evaluations == 0 || i.distinct.len() < 2 {
             println!("HARNESS-ERROR property={} observed nothing (evaluations={}, distinct={})", self.id, i.evaluations, i.distinct.len());
